@@ -187,3 +187,27 @@ Fixpoint spec_run (d : defaults) (prog : list ctree) (inputs : list ((pid -> boo
   | [] => []
   | inp :: rest => spec_step d prog inp regs :: spec_run d prog rest (spec_step d prog inp regs)
   end.
+
+(* ---------- predicates must be 1-bit wires: a program that enters a `with` on a wider wire is
+   rejected (the property speaks about predicates, i.e. 1-bit conditions) ---------- *)
+Section Widths.
+  Variable pw : pid -> Z.
+
+  Fixpoint tree_w1 (t : ctree) {struct t} : bool :=
+    match t with
+    | With p body =>
+        negb (pw p >? 1)
+        && (fix go (l : list ctree) : bool :=
+              match l with [] => true | x :: r => tree_w1 x && go r end) body
+    | Otherwise body =>
+        (fix go (l : list ctree) : bool :=
+           match l with [] => true | x :: r => tree_w1 x && go r end) body
+    | _ => true
+    end.
+
+  Fixpoint forest_w1 (l : list ctree) : bool :=
+    match l with [] => true | x :: r => tree_w1 x && forest_w1 r end.
+End Widths.
+
+Definition spec_accepts_w (pw : pid -> Z) (prog : list ctree) : bool :=
+  forest_w1 pw prog && spec_accepts prog.
